@@ -1,5 +1,6 @@
 import DnsVerif.Lemmas.EncName
 import DnsVerif.Lemmas.EncSpecMsg
+import DnsVerif.Lemmas.RTMsg
 
 /-! # C05 — encoded output is a well-formed DNS message carrying the same value
 
@@ -11,7 +12,7 @@ satisfies the independent wire grammar IN ITS STRICT FORM (`bk = true`: every po
 (`Msg.norm`). `MsgAt` spells out the property's bullet list: counts = section sizes, every RDLENGTH /
 option length / AFDLENGTH / SvcParam length = the octets it covers, nothing after the last record,
 12 ≤ size. "An independent RFC decoder reads it back" = completeness of the grammar-based reference
-(C04) — composed in `encode_decode` when Lemmas/RT*.lean is complete. -/
+(C04) — composed below in `encode_decode` / `encode_decode_total`. -/
 
 namespace C05
 
@@ -93,5 +94,24 @@ theorem length_field_exact {S : Nat → Prop} {e e' : Enc} {li : Nat} (hinv : EI
     BytesAt e'.out li (beBytes 2 (e.out.length - li - 2)) ∧ e.out.length - li - 2 ≤ 65535 ∧ e'.out.length = e.out.length := by
   obtain ⟨_, _, h3, h4, _, h6, _⟩ := EncSpec.setLen_spec hinv hfree h
   exact ⟨h6, h4, h3⟩
+
+/-! ## "encode succeeds and an independent RFC decoder reads its output back as exactly that value" -/
+
+/-- every well-formed value that encodes is read back (by the grammar-complete reference decoder) as the same value -/
+theorem encode_decode {m : Msg} {b : Bytes} (hwf : WfMsg m) (h : encodeDns m = .ok b) :
+    ∃ m' d, decodeDns b = .ok (m', d) ∧ m'.norm = m.norm := RT.encode_decode hwf h
+
+/-- closed form: a well-formed value within the message size limit DOES encode, to at most its uncompressed size,
+the output satisfies the strict layout rules, and it is read back as the same value consuming every octet -/
+theorem encode_decode_total {m : Msg} (hwf : WfMsg m) (hsz : m.usize ≤ 65535) :
+    ∃ b m' d, encodeDns m = .ok b ∧ decodeDns b = .ok (m', d) ∧ m'.norm = m.norm ∧ MsgAt b true m' ∧
+      b.length ≤ m.usize ∧ d.off = b.length := RT.encode_decode_total hwf hsz
+
+/-- every pointer of a strict-grammar name refers backwards and below offset 16384 -/
+theorem pointer_backward_below_16384 {buf : Bytes} {bk : Bool} {off h e : Nat} {n : Name} {a b : UInt8}
+    (hn : NameAt buf bk off n h e) (ha : buf[off]? = some a) (hp : 192 ≤ a.toNat) (hb : buf[off + 1]? = some b) :
+    ptrOff a b < 16384 ∧ (bk = true → ptrOff a b < off) := by
+  obtain ⟨h1, h2, _⟩ := RT.nameAt_ptr_lt hn ha hp hb
+  exact ⟨h1, h2⟩
 
 end C05
